@@ -45,7 +45,7 @@ PROPS = {
                 "criterion that selected something",
         "assumptions": [SAMPLED],
         "guards": ["mode-direct", "mode-proxy", "applied", "preview", "scoped-selector", "target-criterion-applied"],
-        "parts": [{"engine": "mcpgate", "test": "TestProp_C14_MCP", "quick": 600, "thorough": 40000, "shards": {"quick": 4}}],
+        "parts": [{"engine": "mcpgate", "test": "TestProp_C14_MCP", "quick": 1600, "thorough": 60000, "shards": {"quick": 8}}],
     },
     "C18": {
         "rule": "MCP tier: config_apply in preview_only / write_only / write_and_reload with valid, commented, identical, unparsable, uncompilable and empty content, "
